@@ -171,7 +171,7 @@ func main() {
 	if !*keep {
 		defer os.RemoveAll(dir)
 	}
-	cfg := solveCfg{dir: dir, fastS: 3, fullS: 10, workers: 16}
+	cfg := solveCfg{dir: dir, fastS: 3, fullS: 20, workers: 16}
 	if *tier == "thorough" {
 		cfg.fastS, cfg.fullS, cfg.confirm = 10, 120, true
 	}
@@ -179,7 +179,7 @@ func main() {
 	tSolve := time.Since(t0)
 	if *explainF != "" {
 		for _, o := range all {
-			if o.Status == "refuted" && !o.Cover && strings.Contains(o.Name, *explainF) {
+			if (o.Status == "refuted" || o.Status == "unknown") && !o.Cover && strings.Contains(o.Name, *explainF) {
 				fmt.Printf("EXPLAIN %s\n%s", o.Name, explain(o, dir))
 			}
 		}
